@@ -93,6 +93,9 @@ type epCfg struct {
 	InitTSN      uint32
 	Tag          uint32
 	MaxReasm     uint32
+	// LegacyLast: a legacy Config value (transport, logger, name only) is passed after the
+	// option functions: it must not undo what they chose
+	LegacyLast bool
 }
 
 func (c epCfg) String() string {
@@ -210,6 +213,9 @@ func (m *Sim) options(i int, c epCfg) []any {
 	}
 	if c.MaxReasm != 0 {
 		opts = append(opts, WithMaxReassemblyQueueEntries(c.MaxReasm))
+	}
+	if c.LegacyLast {
+		opts = append(opts, Config{NetConn: m.conn(i), LoggerFactory: nopLoggerFactory{}, Name: fmt.Sprintf("ep%d", i)})
 	}
 	return opts
 }
